@@ -450,6 +450,8 @@ def check(PROP, tier, seed, replay):
            "samples": [allops[0], allops[-1]], "judge_violations": len(jv), "model_mismatches": len(res.mismatch),
            "modelled_runs": res.modelled_runs, "model_lines_compared": res.model_lines, "crashes": len(res.crashes),
            "extract_changed": st.extract_changed}
+    if PROP == "C10" and not replay:
+        cov["device_teardown"] = device_teardown_probe(v)
     core.write_evidence(PROP, tier, seed, "proof", cov,
                         ["the mock transport honours the transport contract of the real transports (teardown of real descriptors is not exercised)",
                          "termination of close is proved for the model and observed (exact deadlock detection) for the explored schedules of the code",
@@ -466,3 +468,35 @@ def crash_sig(err):
     s = m.group(1)
     f = re.search(r"#0 [^\n]* in (\w+)", err)
     return s[:80] + ("@" + f.group(1) if f else "")
+
+
+def device_teardown_probe(v):
+    """C10 names devices among the things whose teardown must terminate.  REAL run (harness/r_device.c,
+    real threads, inproc): k idle nng_device instances are cancelled at once and must all stop.
+    k below the number of task threads must always work; k above it is a recorded open finding
+    (the last device_cb closes both sockets synchronously on a task-queue thread)."""
+    import subprocess
+    out = {}
+    try:
+        exe = build.harness("r_device", ["r_device.c"])
+    except build.BuildError as e:
+        v.violation("build-rdevice", {"kind": "build", "error": str(e), "log": e.log[-2000:]}, no_input=True)
+        return {"built": False}
+    env = build.env()
+    for k, must in ((4, True), (40, False)):
+        try:
+            p = subprocess.run([exe], input=f"stopall 1 {k}\n", capture_output=True, text=True, env=env, timeout=25)
+            ok = p.returncode == 0 and f"stopped={k}" in p.stdout
+            detail = (p.stdout + p.stderr)[-600:]
+        except subprocess.TimeoutExpired:
+            ok, detail = False, "timeout after 25 s: the process hangs"
+        out[f"stopall_{k}"] = "stopped" if ok else "HANG/FAIL"
+        if ok:
+            continue
+        kf = next((f for f in core.known_findings("C10") if f.get("status") == "open" and f.get("key") == "device-teardown-hang"), None)
+        if not must and kf:
+            v.known_finding(kf["text"])
+        else:
+            v.violation(f"device-stop-{k}", {"kind": "cancelling nng_device instances does not terminate (REAL, inproc)",
+                                            "ops": [f"stopall 1 {k}"], "harness": "harness/r_device.c", "detail": detail})
+    return out
